@@ -27,3 +27,18 @@ Print Assumptions C18_inplace_refuted.
 Theorem C18_inplace_crash_refuted : exists sched, final (run InPlace sched init) = Partial.
 Proof. exact inplace_crash_refuted. Qed.
 Print Assumptions C18_inplace_crash_refuted.
+
+(* Builds that FAIL rather than vanish - the compiler is killed or errors out, the builder gets SIGINT or a
+   handled SIGTERM - unwind through the clean-up clause.  With any mixture of steps and such failures the
+   invariant still holds and the next attempt still succeeds; a clean-up that renames the temporary onto the
+   final name instead of deleting it is refuted. *)
+Theorem C18_unwind_safe : forall evs, Inv (erun false evs init).
+Proof. exact unwind_safe. Qed.
+Print Assumptions C18_unwind_safe.
+Theorem C18_unwind_recovers : forall evs p,
+  let s := erun false evs init in pc s p = Start -> loaded (run Rename [p; p; p; p; p] s) p = Some Complete.
+Proof. exact unwind_recovers. Qed.
+Print Assumptions C18_unwind_recovers.
+Theorem C18_unwind_publish_refuted : exists evs, final (erun true evs init) = Partial.
+Proof. exact unwind_publish_refuted. Qed.
+Print Assumptions C18_unwind_publish_refuted.
